@@ -474,3 +474,33 @@ func WithOptions(p *Program, devs []OptDeviation) *Program {
 	}
 	return q
 }
+
+// P6 returns the repository's own protocols: chat/proto/chat.dsl as shipped, and
+// internal/parser/testdata/sample_binary.dsl with `root` added to its first packet (as shipped it
+// declares no root and the tool rejects it: its @lengthOf sits in a non-root packet).
+func P6() []*Program {
+	d := func(f *Field, doc string) *Field { f.Doc = doc; return f }
+	al := func(f *Field) *Field { f.Alias = true; return f }
+	chat := prog("P6/chat", Root("SimpleMessage", d(al(Sc("u16", "MsgType")), "消息类型"), d(Ds("JsonBody"), "Json字符串消息体")))
+	chat.Opts = TargetOpts("gp6chat")
+	ck := d(Ck("u32", "Ckecksum", "CRC32"), "校验和")
+	ck.Prefixed = true
+	sample := prog("P6/sample_binary",
+		Root("SampleBinary",
+			d(al(Sc("u16", "MsgType")), "消息类型"),
+			d(Lo("u16", "BodyLenght", "Body"), "消息体长度"),
+			Mt("MsgType", "Body", K("Logon", "1"), K("Logout", "2"), K("Heartbeat", "3"), K("RiskControlRequest", "4"), K("RiskControlResponse", "5")),
+			ck),
+		Pk("Logon", d(Fx(10, "UserName", &Pad{Left: true, Char: "'0'"}), "用户名"), d(Ds("Password"), "密码"), d(al(Sc("u64", "ClientId")), "客户端ID"), d(Sc("u16", "HeartbeatInterval"), "心跳间隔")),
+		Pk("Logout", d(Fx(10, "UserName", &Pad{Left: false, Char: "'0'"}), "用户名"), d(al(Sc("u64", "ClientId")), "客户端ID")),
+		Pk("Heartbeat"),
+		Pk("RiskControlRequest",
+			d(Ds("UniqueOrderId"), "唯一订单号"), d(Fx(16, "ClOrdID", nil), "客户订单号"), d(Fx(3, "MarketID", nil), "市场id"), d(Fx(12, "SecurityID", nil), "证券代码"),
+			d(Sc("char", "Side"), "买卖方向"), d(Sc("char", "OrderType"), "订单类型"), d(Sc("u64", "Price"), "价格"), d(Sc("u32", "Qty"), "数量"),
+			d(Rep(Ds("ExtraInfo")), "附加信息"),
+			Rep(In("SubOrder", d(Fx(16, "ClOrdID", nil), "子订单号"), d(Sc("u64", "Price"), "子订单价格"), d(Sc("u32", "Qty"), "子订单数量")))),
+		Pk("RiskControlResponse", d(Ds("UniqueOrderId"), "唯一订单号"), d(Sc("i32", "Status"), "状态"), d(Ds("Msg"), "结果信息"), Rep(Ob("Detail", ""))),
+		Pk("Detail", d(Ds("RuleName"), "规则名称"), d(Sc("u16", "Code"), "原因代码")))
+	sample.Opts = append([]Opt{{Name: "StringPrefixLenType", Value: "u16", Semi: true}, {Name: "ArrayPrefixLenType", Value: "u16", Semi: true}}, TargetOpts("gp6sample")...)
+	return []*Program{chat, sample}
+}
